@@ -23,6 +23,7 @@ Record state := mkState {
   counted : bool;            (* true: receiver handles are counted (repaired broadcast / single
                                 consumer, whose receiver cannot be cloned); false: the pinned
                                 broadcast code, where every receiver drop closes *)
+  sent : bool;               (* ghost: a send() succeeded *)
   explicit : bool;           (* ghost: close() was called explicitly *)
   gone : bool
 }.
@@ -37,7 +38,7 @@ Inductive op :=
 Definition getr (s : state) (f : fid) : rfut := nth f (rfs s) rabsent.
 
 Definition init (k : nat) (b cnt : bool) : state :=
-  mkState b false None [] (repeat rabsent k) true 1 0 cnt false false.
+  mkState b false None [] (repeat rabsent k) true 1 0 cnt false false false.
 
 Definition legal (s : state) (o : op) : bool :=
   negb (gone s) &&
@@ -91,17 +92,17 @@ Fixpoint wake_all (fs : list rfut) (order : list fid) (acc : list wid) : list rf
   end.
 
 Definition with_sr (s : state) (hs : bool) (rc pr : nat) : state :=
-  mkState (bcast s) (fulfilled s) (value s) (waiters s) (rfs s) hs rc pr (counted s) (explicit s) (gone s).
+  mkState (bcast s) (fulfilled s) (value s) (waiters s) (rfs s) hs rc pr (counted s) (sent s) (explicit s) (gone s).
 Definition with_rfs (s : state) (q : list fid) (fs : list rfut) : state :=
   mkState (bcast s) (fulfilled s) (value s) q fs (has_sender s) (receivers s) (pend_rclose s)
-          (counted s) (explicit s) (gone s).
+          (counted s) (sent s) (explicit s) (gone s).
 
 Definition do_close (s : state) (expl : bool) : state * bool * list wid :=
   if fulfilled s then (s, false, [])
   else
     let '(fs', wk) := wake_all (rfs s) (rev (waiters s)) [] in
     (mkState (bcast s) true (value s) [] fs' (has_sender s) (receivers s) (pend_rclose s)
-             (counted s) (explicit s || expl) (gone s), true, wk).
+             (counted s) (sent s) (explicit s || expl) (gone s), true, wk).
 
 Definition step (s : state) (o : op) : state * obs :=
   match o with
@@ -110,7 +111,7 @@ Definition step (s : state) (o : op) : state * obs :=
       else
         let '(fs', wk) := wake_all (rfs s) (rev (waiters s)) [] in
         let s' := mkState (bcast s) true (Some v) [] fs' (has_sender s) (receivers s) (pend_rclose s)
-                          (counted s) (explicit s) (gone s) in
+                          (counted s) true (explicit s) (gone s) in
         (s', mk_obs s' [R_OK] wk [])
   | Close =>
       let '(s', newly, wk) := do_close s true in (s', mk_obs s' [Rbool newly] wk [])
@@ -126,7 +127,7 @@ Definition step (s : state) (o : op) : state * obs :=
           | Some v =>
               let fs' := upd f (mkR true false RUnreg (r_task x) false (Some w)) (rfs s) in
               let s' := mkState (bcast s) (fulfilled s) (if bcast s then Some v else None) (waiters s) fs'
-                                (has_sender s) (receivers s) (pend_rclose s) (counted s) (explicit s) (gone s) in
+                                (has_sender s) (receivers s) (pend_rclose s) (counted s) (sent s) (explicit s) (gone s) in
               (s', mk_obs s' [R_SOME; v] [] [V_DELIVERED; v])
           | None =>
               if fulfilled s then
@@ -168,7 +169,7 @@ Definition step (s : state) (o : op) : state * obs :=
       (s', mk_obs s' [Rbool newly] wk [])
   | Teardown =>
       let s' := mkState (bcast s) (fulfilled s) None [] (map (fun _ => rabsent) (rfs s)) false 0 0
-                        (counted s) (explicit s) true in
+                        (counted s) (sent s) (explicit s) true in
       (s', mkObs [R_UNIT] [] (match value s with Some v => [V_DROPPED; v] | None => [] end) [] [] [] 0)
   end.
 
@@ -265,5 +266,3 @@ Definition enabled (x : xstate) : list (list N) :=
         ++ (if Nat.ltb 0 (receivers s) then [[9%N]] else [])
       else [])
   ++ [encode Teardown].
-
-Definition machine : Base.machine := mkMachine xstate minit xstep enabled (fun x => x) (fun _ _ _ => true).
